@@ -154,6 +154,18 @@ func c06scenarios(probe string) []c06scn {
 		}
 		out = append(out, c06scn{"shared custom template and schema, validation switched off for some packages", map[string]string{"a/a.go": goIface("a", "A1"), "b/b.go": goIface("b", "B1", "B2"), "c/c.go": goIface("c", "C1"), "d/d.go": goIface("d", "D1")}, cfg})
 	}
+	{ // in-package mocks in a NON-test file: on the second run mockery's own previous output is part of the source
+		// package it loads; parameters named like the declarations it generates must come out the same both times
+		cfg := testifyRoot()
+		cfg["all"] = true
+		cfg["filename"] = "mocks.go"
+		cfg["pkgname"] = "{{.SrcPackageName}}"
+		cfg["packages"] = core.M{P("svc"): core.M{}, P("svc2"): core.M{"config": core.M{"template": "matryer", "template-data": core.M{"skip-ensure": true, "with-resets": true}}}}
+		src := func(pkg string) string {
+			return "package " + pkg + "\n\ntype Store interface {\n\tGet(MockStore int, NewMockStore string, MockStore_Expecter bool) (MockStore_Get_Call error)\n\tPut(mockConstructorTestingTNewMockStore int, StoreMock string)\n}\n\ntype Other interface{ Do(MockOther, NewMockOther int) }\n"
+		}
+		out = append(out, c06scn{"in-package mocks in a non-test file, parameters named like the generated declarations", map[string]string{"svc/s.go": src("svc"), "svc2/s.go": src("svc2")}, cfg})
+	}
 	{ // one output file per interface: whatever state is kept between files (import registries, qualifiers,
 		// reserved names) must not leak from the files rendered earlier, in whatever order they are visited
 		cfg := testifyRoot()
